@@ -158,6 +158,8 @@ class Tree:
                 pos += 1
             node.kids.append(len(self.nodes))
             pos = self._parse(pos, depth + 1)
+            if ch == "p" and self.nodes[node.kids[-1]].kind == "l":
+                raise ValueError
         if self.text[pos] != ")":
             raise ValueError
         return pos + 1
@@ -342,7 +344,7 @@ def gen_case(rng, idx, maxlen):
 TOPOLOGIES = [
     (5, "i(i(a,b),c)"), (3, "i(a,i(b,c))"), (5, "i(i(a,b),i(c,d))"), (3, "i(i(a,b),i(b,a))"), (2, "i(i(a,b),i(b,c))"),
     (3, "i(m(a,b,c),d)"), (2, "m(i(a,b),c,i(c,d))"), (2, "i(m(a,b,c),i(a,d))"), (2, "m(a,m(b,c,d),i(a,b))"),
-    (3, "i(p(i(a,b)),c)"), (2, "i(p(i(a,b)),p(i(c,a)))"), (1, "i(p(i(a,b)),m(c,p(a),d))"),
+    (3, "i(p(i(a,b)),c)"), (2, "i(p(i(a,b)),p(i(c,a)))"), (1, "i(p(i(a,b)),m(c,a,d))"),
     (3, "i(i(i(a,b),c),d)"), (2, "i(i(a,i(b,c)),d)"), (2, "m(a,i(i(b,c),d),b)"), (2, "i(i(i(a,b),i(c,d)),i(a,i(d,b)))"),
 ]
 
